@@ -1027,6 +1027,20 @@ func insideCall(r *evid.Run) {
 
 func replayCase(cs Case) string {
 	switch cs.Part {
+	case "iface":
+		var ci, vi int
+		fmt.Sscan(cs.Position, &ci)
+		fmt.Sscan(cs.Type, &vi)
+		if ci >= 0 && ci < len(ifaceCases()) && vi >= 0 && vi < len(ifValues()) {
+			return ifaceOne(ci, vi)
+		}
+		return ""
+	case "iface-unmarshal":
+		var w int
+		fmt.Sscan(cs.Position, &w)
+		return ifaceUnmarshal(w)
+	}
+	switch cs.Part {
 	case "marshal-dispatch":
 		for ti := range mtypes.MTypes {
 			if mtypes.MTypes[ti].Name != cs.Type {
@@ -1088,6 +1102,7 @@ func Run(r *evid.Run) {
 	marshalDispatch(r)
 	unmarshalDispatch(r)
 	builtinFuncs(r)
+	interfaceFuncs(r)
 	repeatedUse(r)
 	byteStyleErrors(r)
 	marshalPolicing(r, "c17")
